@@ -81,3 +81,40 @@ Proof.
     contradiction.
 Qed.
 Print Assumptions C19_code_relabel_stores_into_copy.
+
+(* ---- the ARGUMENT PRINTER AS TRANSLATED (Gen/G_ua_print.v; facts: Proofs/GenEquivRM.v): reads the nine fields, writes only through print(file=stream)
+   and a closure over that same stream (the stream given, or sys.stdout when none is), returns None ---- *)
+From Ticc Require Import Gen.PySkel Gen.G_ua_print Proofs.GenEquivRM.
+Section SkelRM19.
+  Local Open Scope string_scope.
+  Variable V : Type.
+  Variable vnone : V.
+  Variable vint : Z -> V.
+  Variable as_int : V -> option Z.
+  Variable veq : V -> V -> bool.
+  Variable getattr : V -> string -> V.
+  Variable truthy : V -> bool.
+  Variable is_none : V -> bool.
+  Variables vtrue vfalse : V.
+  Variable as_list : V -> list V.
+  Variable vglobal : string -> V.
+  Variable oracle : list (event V) -> string -> list V -> res V.
+  Let print_stream := GenEquivRM.print_stream V is_none vglobal.
+  Let print_events := GenEquivRM.print_events V getattr.
+  Theorem C19_code_print (self out r : V) (log log' : list (event V)) :
+    g_UserArguments_print V vnone getattr is_none vglobal oracle self out log = (Ret r, log') ->
+    exists my_log h ds,
+      let evs := print_events self (print_stream out) my_log h ds in
+      log' = (log ++ evs)%list /\
+      length ds = 9%nat /\ length evs = 21%nat /\
+      oracle log f_mylog [print_stream out] = Ret my_log /\
+      oracle (log ++ firstn 1 evs)%list f_header [] = Ret h /\
+      (exists a, oracle (log ++ firstn 2 evs)%list "print(file=)" [h; print_stream out] = Ret a) /\
+      (forall k, (k < 9)%nat ->
+         oracle (log ++ firstn (3 + 2 * k) evs)%list (fst (nth k ua_print_fields ("", ""))) [] = Ret (nth k ds vnone) /\
+         exists a, oracle (log ++ firstn (4 + 2 * k) evs)%list "apply"
+                          [my_log; nth k ds vnone; getattr self (snd (nth k ua_print_fields ("", "")))] = Ret a) /\
+      r = vnone.
+  Proof. intros; eapply print_returns; eassumption. Qed.
+End SkelRM19.
+Print Assumptions C19_code_print.
